@@ -158,7 +158,12 @@ func (c *FnCtx) safety(kind string, st *State, cond Term) {
 		return
 	}
 	if c.checks[kind] || c.checks["all"] {
-		c.addObl("safe:"+kind, "", nil, st, cond, nil)
+		var props []string
+		if c.contract != nil && c.contract.Attrs["safety"] != "" {
+			// `attr safety C10`: the implicit-panic obligations also count for that property
+			props = append(append(props, c.props...), strings.Fields(strings.ReplaceAll(c.contract.Attrs["safety"], ",", " "))...)
+		}
+		c.addObl("safe:"+kind, "", props, st, cond, nil)
 	} else {
 		c.assume("A-nopanic: implicit " + kind + " panics are not checked in this function (executions that panic are outside the contract)")
 	}
@@ -637,6 +642,14 @@ func (c *FnCtx) loopEntry(fr *Frame, st *State, li *loopInfo) {
 		c.noFrame--
 	}
 	c.bindLoopLets(fr, st, li)
+	if li.rangeAlloc != nil {
+		// the hidden index of a range loop is written by the loop header only (-1, then +1 per
+		// iteration): it is never below -1
+		k := cellKey{frame: fr.id, alloc: li.rangeAlloc}
+		if v, ok := st.cells[k].(Sc); ok && v.T.Sort == SInt {
+			st.pc = c.vc.Name("pc", And(st.pc, App(SBool, ">=", v.T, IntLit(-1))))
+		}
+	}
 	if li.spec != nil {
 		env = c.specEnv(fr, st)
 		var assumed []Term
